@@ -23,10 +23,16 @@ dbmodel.install_stubs(eng)
 rep = Replayer(log)
 scn = Scenario(log)
 try:
+    # end to end, first (the exploration installs its own hand-over to the jobserver): nested builds through the real scheduler,
+    # repeated after source edits - see DESIGN.md §5.0 "Histories"
+    from specs import schedcheck
+    if not os.environ.get('VERIF_OBL') or 'sched' in os.environ.get('VERIF_OBL'):
+        schedcheck.explore(chk, 'C01', scn)
+        schedcheck.uninstall(eng)
     N, E = (3, 3) if chk.thorough() else (2, 2)
-    chk.bounds = {'files': N, 'max_edges': E, 'row columns': 'all symbolic (run ids: integers; flags: booleans; stamp in {NULL, missing, '
+    chk.bounds.update({'files': N, 'max_edges': E, 'row columns': 'all symbolic (run ids: integers; flags: booleans; stamp in {NULL, missing, '
                   'recorded}; filesystem in {absent, as recorded, mtime differs, only mode differs}; csum empty or not)',
-                  'ALWAYS pseudo-file': 'present, may be a dependency'}
+                  'ALWAYS pseudo-file': 'present, may be a dependency'})
     chk.assumptions += depscheck.ASSUMPTIONS
     from specs.dbmodel import S_MISSING
     depscheck.kernel_agreement(chk, N, E, goals=True, world_kw={'always_stamps': (None, S_MISSING)})
